@@ -112,7 +112,7 @@ struct OE { name: u64, short: (Option<u64>, u64), depr: bool, ft: bool, fields: 
 #[derive(Clone, Debug, PartialEq)]
 struct ONs { name: u64, id: u64, ents: Vec<OE> }
 #[derive(Clone, Debug, PartialEq, Default)]
-struct OM { tag: u64, nss: Vec<ONs> }
+struct OM { tag: u64, inconsistent: bool, nss: Vec<ONs> }
 
 fn ref_target(s: &str) -> (u64, u64) {
     let parts: Vec<&str> = s.split('.').collect();
@@ -136,24 +136,25 @@ fn observe(v: &Value, tags: &HashMap<String, u64>, strip_sys: bool) -> OM {
     let eshort = v["entities_short"].as_object().unwrap();
     let mut nss = vec![];
     let nsmap = v["namespaces"].as_object().unwrap();
-    if nsmap.len() != ids.len() { eprintln!("namespace_ids and namespaces disagree"); std::process::exit(3); }
+    // the value's own look-up tables must agree with its namespaces: an observation, not a crash
+    let mut inconsistent = nsmap.len() != ids.len();
     for (nsn, ents) in nsmap {
         if strip_sys && nsn == "sys" { continue; }
-        let id = ids.get(nsn).unwrap_or_else(|| { eprintln!("namespace without id"); std::process::exit(3) }).as_u64().unwrap();
+        let id = match ids.get(nsn).and_then(|x| x.as_u64()) { Some(i) => i, None => { inconsistent = true; 999_999 } };
         let mut oes = vec![];
         for (key, e) in ents.as_object().unwrap() {
             let name = e["name"].as_str().unwrap();
-            if name != key { eprintln!("entity key/name differ"); std::process::exit(3); }
+            if name != key { inconsistent = true; }
             let sh = e["short_name"].as_str().unwrap();
             match eshort.get(sh) {
                 Some(p) if p[0].as_str() == Some(nsn) && p[1].as_str() == Some(name) => {}
-                _ => { eprintln!("entities_short inconsistent for {}", name); std::process::exit(3); }
+                _ => { inconsistent = true; }
             }
             let short = match sh.split_once('.') { Some((a, b)) => (Some(a.parse().unwrap()), b.parse().unwrap()), None => (None, sh.parse().unwrap()) };
             let mut fields = vec![];
             for (fk, f) in e["fields"].as_object().unwrap() {
                 let fname = f["name"].as_str().unwrap();
-                if fname != fk { eprintln!("field key/name differ"); std::process::exit(3); }
+                if fname != fk { inconsistent = true; }
                 let ty = match &f["field_type"] {
                     Value::String(s) => match s.as_str() { "Boolean" => Ty::Bool, "Float" => Ty::Float, "Integer" => Ty::Int, "String" => Ty::Str, "Base64" => Ty::B64, "Json" => Ty::Json, _ => unreachable!() },
                     Value::Object(o) => { let (k, t) = o.iter().next().unwrap(); let (n, e) = ref_target(t.as_str().unwrap()); if k == "Entity" { Ty::Ent(n, e) } else { Ty::Arr(n, e) } }
@@ -180,7 +181,7 @@ fn observe(v: &Value, tags: &HashMap<String, u64>, strip_sys: bool) -> OM {
         nss.push(ONs { name: ns_index(nsn), id, ents: oes });
     }
     nss.sort_by_key(|n| n.name);
-    OM { tag, nss }
+    OM { tag, inconsistent, nss }
 }
 fn enc_ty(t: &Ty) -> [i64; 3] {
     match t { Ty::Bool => [0, 0, 0], Ty::Float => [1, 0, 0], Ty::Int => [2, 0, 0], Ty::Str => [3, 0, 0], Ty::B64 => [4, 0, 0], Ty::Json => [5, 0, 0],
@@ -188,6 +189,7 @@ fn enc_ty(t: &Ty) -> [i64; 3] {
 }
 fn enc_model(m: &OM, out: &mut Vec<i64>) {
     out.push(m.tag as i64);
+    out.push(!m.inconsistent as i64);
     out.push(m.nss.len() as i64);
     for n in &m.nss {
         out.push(n.name as i64); out.push(n.id as i64); out.push(n.ents.len() as i64);
@@ -386,7 +388,8 @@ fn valid_edit(rng: &mut Rng, v: &mut Ver, added: &mut Vec<(usize, usize)>, sys: 
 fn invalid_edit(rng: &mut Rng, v: &mut Ver, sys: bool) -> &'static str {
     let ents = all_ents(v);
     let (b, i) = match pick_entity(rng, v) { Some(x) => x, None => return "none" };
-    match rng.below(19) {
+    match rng.below(24) {
+        19..=23 => rename_edit(rng, v, b, i),
         0 => { let e = &mut v.blocks[b].1[i]; if e.fields.len() > 1 { let k = rng.below(e.fields.len() as u64) as usize; let n = e.fields[k].name; e.fields.remove(k); e.idx.retain(|ix| !ix.contains(&n)); return "remove_field"; } "none" }
         1 => { let e = &mut v.blocks[b].1[i]; if e.fields.len() > 1 { let k = rng.below(e.fields.len() as u64 - 1) as usize; e.fields.swap(k, k + 1); return "swap_fields"; } "none" }
         2 => { let e = &mut v.blocks[b].1[i]; let k = rng.below(e.fields.len() as u64) as usize; let n = e.fields[k].name; let old = e.fields[k].ty.clone();
@@ -414,6 +417,29 @@ fn invalid_edit(rng: &mut Rng, v: &mut Ver, sys: bool) -> &'static str {
         _ => { v.blocks.insert(0, (6, vec![ED { name: 1, depr: false, ft: true, fields: vec![FD { name: 1, ty: Ty::Int, default: None, nullable: true, depr: false }], idx: vec![] }])); "namespace_in_front" }
     }
 }
+/// what renaming fields looks like to the data model: k fields are gone and at least k new ones
+/// appear (at the same places, or at the end), all of them readable on old rows
+fn rename_edit(rng: &mut Rng, v: &mut Ver, b: usize, i: usize) -> &'static str {
+    let ents = all_ents(v);
+    let e = &mut v.blocks[b].1[i];
+    let k = (1 + rng.below(3)).min(e.fields.len() as u64);
+    let in_place = rng.chance(1, 2);
+    let mut removed = vec![];
+    for _ in 0..k {
+        let pos = rng.below(e.fields.len() as u64) as usize;
+        if removed.contains(&e.fields[pos].name) { continue; }
+        let n = match free_field_name(e) { Some(n) => n, None => break };
+        let old = e.fields[pos].clone();
+        let mut f = if rng.chance(2, 3) { FD { name: n, ..old.clone() } } else { gen_field(rng, n, &ents, true) };
+        if needs_default_fd(&f) { f.nullable = true; }
+        removed.push(old.name);
+        if in_place { e.fields[pos] = f; } else { e.fields.remove(pos); e.fields.push(f); }
+    }
+    if rng.chance(1, 3) { if let Some(n) = free_field_name(e) { let f = gen_field(rng, n, &ents, true); e.fields.push(f); } }
+    e.idx.retain(|ix| !ix.iter().any(|f| removed.contains(f)));
+    if removed.is_empty() { "none" } else if in_place { "rename_fields_in_place" } else { "rename_fields_moved_to_end" }
+}
+fn needs_default_fd(f: &FD) -> bool { !f.nullable && f.default.is_none() && !is_ref(&f.ty) }
 fn v_unknown_ns(sys: bool) -> u64 { if sys { 1 } else { 7 } }
 
 fn k1_edit(rng: &mut Rng, v: &mut Ver) -> bool {
@@ -454,7 +480,9 @@ fn gen_sequence(rng: &mut Rng, mode: u64, edits: &mut BTreeMap<&'static str, usi
                 if rng.chance(3, 5) {
                     let ninv = 1 + rng.below(2);
                     for _ in 0..ninv { let e = invalid_edit(rng, &mut v, false); *edits.entry(e).or_insert(0) += 1; }
+                    if rng.chance(1, 3) { seq.push((false, v.clone())); }
                     seq.push((false, v));     // a refused version is not what later versions build on
+                    if rng.chance(1, 3) { seq.push((false, base.clone())); }
                 } else { base = v.clone(); seq.push((false, v)); }
             }
         }
@@ -522,6 +550,23 @@ fn directed_bare() -> Vec<(&'static str, Vec<(bool, Ver)>)> {
         for k in [70u64, 67, 69, 68, 72, 71] { w.blocks[0].1[0].fields.push(sn(k)); seq.push((false, w.clone())); }
         seq.push((false, w2.clone()));      // the version reached in one go above: same text, must be accepted unchanged
         out.push(("directed_wide_fields_one_at_a_time", seq));
+    }
+    // renaming fields = dropping k and adding >= k: refused, and the accepted text still works afterwards
+    {
+        let r0 = ver(vec![(2, vec![ed(1, vec![s(1), sn(2), fd(3, Ty::Int, Some(1), false)]), ed(2, vec![s(1)])])]);
+        let mut ra = r0.clone(); ra.blocks[0].1[0].fields[1] = sn(9);                                    // f2 -> f9 in place
+        let mut rb = r0.clone(); rb.blocks[0].1[0].fields.remove(1); rb.blocks[0].1[0].fields.push(fd(9, Ty::Str, Some(1), false));   // f2 dropped, f9 at the end
+        let mut rc = r0.clone(); rc.blocks[0].1[0].fields = vec![sn(8), sn(9), fd(3, Ty::Int, Some(1), false), sn(7)];          // two renamed, one more added
+        let mut rd = r0.clone(); rd.blocks[0].1[0].fields = vec![sn(7), sn(8), sn(9)];                         // all three
+        for (name, r) in [("directed_rename_in_place", ra), ("directed_rename_to_end", rb), ("directed_rename_two_and_add", rc), ("directed_rename_all", rd)] {
+            out.push((name, vec![(false, r0.clone()), (false, r.clone()), (false, r.clone()), (false, r0.clone())]));
+        }
+    }
+    // a namespace opened again later in the text, with new entities: their places continue the namespace's
+    {
+        let p0 = ver(vec![(2, vec![ed(1, vec![s(1)]), ed(2, vec![s(1)])]), (3, vec![ed(1, vec![s(1)])]), (2, vec![ed(3, vec![s(1)])]), (0, vec![ed(1, vec![s(1)])])]);
+        let mut p1 = p0.clone(); p1.blocks.push((2, vec![ed(4, vec![s(1)])])); p1.blocks.push((0, vec![ed(2, vec![s(1)]), ed(3, vec![s(1)])])); p1.blocks.push((3, vec![ed(2, vec![s(1)])]));
+        out.push(("directed_namespace_opened_again", vec![(false, p0.clone()), (false, p0.clone()), (false, p1.clone()), (false, p1)]));
     }
     // former K1 (fixed a0ddb65): three fields at once, then the same text again (what a restart does)
     let v1 = ver(vec![(2, vec![ed(1, vec![s(1)])])]);
@@ -625,6 +670,7 @@ async fn inst_case(kind: &str, k: usize, seq: &[(bool, Ver)], stats: &mut InstSt
     let mut tabs: Vec<OTab> = vec![];
     let mut baselines: Vec<Baseline> = vec![];
     let mut baseline_done = false;
+    let mut first_entities: Vec<(u64, u64)> = vec![];
     let mut baseline_failed = false;
     let mut log = vec![];
     for (is_start, s) in &steps {
@@ -647,6 +693,7 @@ async fn inst_case(kind: &str, k: usize, seq: &[(bool, Ver)], stats: &mut InstSt
             // rows: written once, after the first start; read back after every step
             if !baseline_done {
                 baseline_done = true;
+                first_entities = all_ents(&s.ver);
                 for (ns, eds) in &s.ver.blocks { for e in eds {
                     // entities whose rows can be written with plain scalar values (has_rows in Run_C15.v)
                     let fs: Vec<&FD> = e.fields.iter().filter(|f| row_value(&f.ty, 0).is_some()).collect();
@@ -678,6 +725,16 @@ async fn inst_case(kind: &str, k: usize, seq: &[(bool, Ver)], stats: &mut InstSt
                     if sv.mutate_raw(&m, None).await.is_ok() { rows_ok = false; log.push(format!("an entity of the refused version accepts rows: {}", m)); }
                 } }
             }
+            // entities the model has gained since the rows were written have no rows
+            for n in &mem.nss { for e in &n.ents {
+                if first_entities.contains(&(n.name, e.name)) { continue; }
+                let q = format!("query {{ {} {{ id }} }}", qual(n.name, e.name));
+                match sv.query(&q, None).await {
+                    Ok(res) => { let rows = sorted_rows(&res, &qual(n.name, e.name)); if rows.as_array().map(|a| a.len()) != Some(0) { rows_ok = false; log.push(format!("the new entity {} returns rows: {}", qual(n.name, e.name), res)); } }
+                    Err(err) => { rows_ok = false; log.push(format!("the new entity {} cannot be queried: {}", qual(n.name, e.name), err)); }
+                }
+                stats.probes_new_entity += 1;
+            } }
             for b in &baselines {
                 let q = format!("query {{ {} {{ id {} }} }}", qual(b.ns, b.e), b.qfields.iter().map(|f| field_name(*f)).collect::<Vec<_>>().join(" "));
                 match sv.query(&q, None).await {
@@ -743,6 +800,20 @@ fn directed_inst() -> Vec<(&'static str, Vec<(bool, Ver)>)> {
     for _ in 0..2 { out.push(("inst_k2_new_field_kept_after_refusal", vec![(true, v1.clone()), (false, bad2.clone()), (true, v1.clone())])); }
     // refused at start: no instance; the store is intact
     out.push(("inst_refused_at_start", vec![(true, v1.clone()), (true, bad), (true, v1.clone()), (false, v2.clone())]));
+    // renamed fields on a real instance: refused at run time and at start, the store still opens with its text
+    {
+        let mut ra = v1.clone(); ra.blocks[0].1[0].fields[0] = sn(9);
+        let mut rb = v1.clone(); rb.blocks[0].1[0].fields.remove(1); rb.blocks[0].1[0].fields.push(i(8, 2)); rb.blocks[0].1[0].fields.push(sn(9));
+        out.push(("inst_rename_fields", vec![(true, v1.clone()), (false, ra.clone()), (true, ra), (true, v1.clone()), (false, rb.clone()), (false, v2.clone()), (true, rb), (true, v2.clone())]));
+    }
+    // a namespace opened again with new entities, on an instance with rows: the new entities have no rows
+    {
+        let p0 = ver(vec![(2, vec![ed(1, vec![s(1)]), ed(2, vec![s(1), i(2, 1)])]), (3, vec![ed(1, vec![s(1)])]), (2, vec![ed(3, vec![s(1)])]), (0, vec![ed(1, vec![s(1)])])]);
+        let mut p1 = p0.clone(); p1.blocks.push((2, vec![ed(4, vec![s(1)])])); p1.blocks.push((0, vec![ed(2, vec![s(1)])])); p1.blocks.push((3, vec![ed(2, vec![s(1)]), ed(3, vec![s(1)])]));
+        out.push(("inst_namespace_opened_again", vec![(true, p0.clone()), (false, p1.clone()), (true, p1.clone()), (true, p1)]));
+        let mut p2 = p0.clone(); p2.blocks.push((3, vec![ed(2, vec![s(1)])]));
+        out.push(("inst_namespace_opened_again_at_start", vec![(true, p0), (true, p2.clone()), (false, p2)]));
+    }
     // open finding 4: an entity with rows gets a Boolean field with a default
     let mut vb = v1.clone(); vb.blocks[0].1[0].fields.push(fd(3, Ty::Bool, Some(1), false));
     out.push(("inst_bool_default_on_old_rows", vec![(true, v1.clone()), (false, vb.clone()), (true, vb)]));
@@ -793,6 +864,20 @@ async fn main() {
                 seq.insert(at, (rng.chance(1, 3), cv));
                 if seq[at].0 && at + 1 < seq.len() { seq[at + 1].0 = true; }   // a refused start leaves no instance: start again
                 kind = "inst_random_storage_refusal";
+            }
+        }
+        if kind == "inst_random_compatible" && rng.chance(2, 3) {
+            // a version that renames fields, at run time or at start, then the accepted text again
+            let at = 1 + rng.below(seq.len() as u64) as usize;
+            let mut rv = seq[at - 1].1.clone();
+            if let Some((b, i)) = pick_entity(&mut rng, &rv) {
+                if rename_edit(&mut rng, &mut rv, b, i) != "none" {
+                    let good = seq[at - 1].1.clone();
+                    let start = rng.chance(1, 2);
+                    seq.insert(at, (start, rv));
+                    seq.insert(at + 1, (true, good));
+                    kind = "inst_random_rename";
+                }
             }
         }
         let c = inst_case(kind, k, &seq, &mut ist).await; out.push(c); k += 1;
